@@ -25,6 +25,7 @@ type PropDef struct {
 	Run        func(w *World, plan interface{})                 // scenario + oracles, runs as the main task
 	MaxSim     time.Duration
 	MaxSteps   int
+	PanicRule  string // when set, a panic of a lime-go goroutine in a run is this violation
 	Rule       string // how cases are generated and what makes one non-trivial (for the evidence file)
 	Components string
 }
@@ -149,7 +150,36 @@ func runPlan(t *testing.T, def *PropDef, plan interface{}, tape *simrt.Tape, tie
 	if maxSteps == 0 {
 		maxSteps = 300000
 	}
-	return Execute(t, tape, tier, keepLog, maxSim, maxSteps, func(w *World) { def.Run(w, plan) })
+	ro := Execute(t, tape, tier, keepLog, maxSim, maxSteps, func(w *World) { def.Run(w, plan) })
+	if def.PanicRule != "" {
+		for _, p := range ro.Res.Panics {
+			if fn := limeFrame(p.Stack); fn != "" {
+				ro.Violations = append(ro.Violations, Violation{Rule: def.PanicRule, Sig: "panic in " + fn,
+					Detail: fmt.Sprintf("goroutine %s (%s) panicked: %s\n%s", p.Task, p.Site, p.Value, short(p.Stack, 1200)), Step: ro.Res.Steps})
+				break
+			}
+		}
+	}
+	return ro
+}
+
+// limeFrame returns the innermost lime-go function on a panic stack that did not start in
+// harness code ("" when the panic belongs to the harness).
+func limeFrame(stack string) string {
+	lines := strings.Split(stack, "\n")
+	for _, ln := range lines {
+		if strings.HasPrefix(ln, "github.com/takenet/lime-go.") {
+			fn := strings.TrimPrefix(ln, "github.com/takenet/lime-go.")
+			if i := strings.LastIndex(fn, "("); i > 0 {
+				fn = fn[:i]
+			}
+			return fn
+		}
+		if strings.HasPrefix(ln, "harness.") {
+			return ""
+		}
+	}
+	return ""
 }
 
 func hasRule(vs []Violation, rule string) *Violation {
